@@ -38,6 +38,15 @@ Json gen(sim::Rng& rng, int tier)
     }
     p["requests"] = reqs;
     p["stall_ms"] = static_cast<int>(200 + rng.below(tier ? 3000 : 1500));
+    // what the stalled client does while it is not reading: nothing (a well-behaved browser), or it goes on *sending* - the
+    // head of its next request, a whole small request (its answer queues behind the blocked one), or most of a large upload
+    // (tens of KB of input on the very connection that cannot be written to, none of which completes a request yet)
+    {
+        int d = static_cast<int>(rng.below(10));
+        p["during_stall"] = d < 5 ? "nothing" : d < 7 ? "next-head" : d < 8 ? "whole-request" : "upload";
+        p["upload_len"] = static_cast<int>(20000 + rng.below(110000));
+        p["during_at_permille"] = static_cast<int>(50 + rng.below(900));
+    }
     Json nbs = Json::array();
     int nb = static_cast<int>(rng.range(1, 3));
     for (int i = 0; i < nb; ++i) {
@@ -90,7 +99,19 @@ void run(const Json& plan)
     httpw::Opts o;
     o.workers = 1;
     o.port = port;
+    o.max_req = 200000;
     w.start(o);
+    // the extra request that the stalled client sends while it does not read (answered second, behind the blocked response)
+    const std::string during = plan.str("during_stall", "nothing");
+    std::string extra, extra_want;
+    size_t extra_first = 0; // bytes of it sent during the stall
+    if (during != "nothing") {
+        std::string body = during == "upload" ? actors::pattern(4242, static_cast<size_t>(std::max<i64>(1000, std::min<i64>(plan.num("upload_len", 40000), 150000)))) : std::string("stalled-sender");
+        extra = actors::http_request("POST", "/echo/during", { { "Host", "sim" }, { "Connection", "keep-alive" } }, body);
+        extra_want = httpw::SimHandler::echo_body("POST", "/echo/during", "", body);
+        extra_first = during == "whole-request" ? extra.size() : during == "upload" ? extra.size() - 100 : std::min<size_t>(extra.size() - 1, 30);
+        r.probe("during-stall-" + during);
+    }
 
     using actors::Step;
     const i64 stall = std::max<i64>(1, std::min<i64>(plan.num("stall_ms", 500), 10000)) * 1000000LL;
@@ -102,14 +123,22 @@ void run(const Json& plan)
         st.push_back(httpw::send_step(all));
     } else
         st.push_back(httpw::send_step(actors::http_request("GET", wants[0].target, { { "Host", "sim" }, { "Connection", "keep-alive" } }, "")));
-    st.push_back(httpw::step(Step::Pause, stall));
+    if (extra.empty())
+        st.push_back(httpw::step(Step::Pause, stall));
+    else {
+        const i64 at = stall * std::max<i64>(1, std::min<i64>(plan.num("during_at_permille", 500), 999)) / 1000;
+        st.push_back(httpw::step(Step::Pause, at));
+        st.push_back(httpw::send_step(extra.substr(0, extra_first)));
+        st.push_back(httpw::step(Step::Pause, stall - at));
+    }
     st.push_back(httpw::step(Step::ResumeReading));
+    if (!extra.empty() && extra_first < extra.size()) st.push_back(httpw::send_step(extra.substr(extra_first)));
     if (pipelined)
         st.push_back(httpw::step(Step::Await, 120LL * 1000000000LL, static_cast<int>(wants.size())));
     else
         for (size_t k = 0; k < wants.size(); ++k) {
             if (k > 0) st.push_back(httpw::send_step(actors::http_request("GET", wants[k].target, { { "Host", "sim" }, { "Connection", "keep-alive" } }, "")));
-            st.push_back(httpw::step(Step::Await, 120LL * 1000000000LL, static_cast<int>(k + 1)));
+            st.push_back(httpw::step(Step::Await, 120LL * 1000000000LL, static_cast<int>(k + 1 + (extra.empty() ? 0 : 1))));
         }
     st.push_back(httpw::step(Step::Close));
     auto a = std::make_shared<actors::Client>(0, port, st);
@@ -175,6 +204,13 @@ void run(const Json& plan)
     // the stalled connection: everything delivered afterwards
     if (a->reader.broken) r.violation("C07.delivery:stream-not-a-sequence-of-responses", "connection 0 received bytes that are not a sequence of responses: " + a->reader.broken_why);
     else {
+        if (!extra.empty()) {
+            Want ew;
+            ew.kind = "during-" + during;
+            ew.target = "/echo/during";
+            ew.body = extra_want;
+            wants.insert(wants.begin() + 1, ew);
+        }
         if (a->responses() != wants.size()) r.violation("C07.delivery:responses-missing", "connection 0 received " + std::to_string(a->responses()) + " of " + std::to_string(wants.size()) + " responses after it resumed reading");
         for (size_t k = 0; k < a->responses() && k < wants.size(); ++k) {
             r.probe("stalled-" + wants[k].kind);
